@@ -475,6 +475,18 @@ def mon_C10(tr):
         n = min(len(got), len(want))
         pos = next((i for i in range(n) if repr(got[i]) != repr(want[i])), n)
         out.append(V("logger-stream-equals-events", 0, first_difference=pos, delivered=len(got), events=len(want)))
+    # the order record describes the order AS ACCEPTED: id, accept time and (rounded) price are those the order object carries
+    views = tr.res.get("views") or []
+    k = -1
+    for i, (op, ob) in enumerate(zip(ops, obs)):
+        if op[0] != "add":
+            continue
+        k += 1
+        if isinstance(ob, list) and ob and ob[0] == 1 and k < len(views):
+            v = views[k]
+            if (ob[1], ob[3], ob[6]) != (v[0], v[3], v[4]) and len(out) < 5:
+                out.append(V("order-record-equals-the-order-as-accepted", i, record=dict(id=ob[1], time=ob[3], price=ob[6]),
+                             order=dict(id=v[0], placed_at=v[3], price=v[4])))
     # every record carries the time of the clock at which its event happened (a cancel is recorded at the step it is accepted, whatever
     # the Cancel object carried before; a fill and an expiry at the step of the round / of the clock move)
     clock = -1
